@@ -102,9 +102,8 @@ func Match(query *AddressBookQuery, ao *AddressObject) (matched bool, err error)
 }
 
 func matchPropFilter(prop PropFilter, ao *AddressObject) (bool, error) {
-	// TODO: this only matches first field, there could be multiple
-	field := ao.Card.Get(prop.Name)
-	if field == nil {
+	fields := ao.Card[prop.Name]
+	if len(fields) == 0 {
 		return prop.IsNotDefined, nil
 	} else if prop.IsNotDefined {
 		return false, nil
@@ -115,6 +114,21 @@ func matchPropFilter(prop PropFilter, ao *AddressObject) (bool, error) {
 		return true, nil
 	}
 
+	// A property can occur several times (e.g. EMAIL): the filter matches if
+	// any one of its instances does (RFC 6352 section 10.5.1).
+	for _, field := range fields {
+		ok, err := matchField(prop, field)
+		if err != nil {
+			return false, err
+		}
+		if ok {
+			return true, nil
+		}
+	}
+	return false, nil
+}
+
+func matchField(prop PropFilter, field *vcard.Field) (bool, error) {
 	switch prop.Test {
 	default:
 		return false, fmt.Errorf("unknown property filter test %q", prop.Test)
